@@ -26,6 +26,7 @@ type Env struct {
 	binderInvs *[]string // type invariants of the values read under the binder (guards of the quantified body)
 	bound     map[string]bool
 	ownBound  map[string]bool // the variables of the innermost binder (for its own patterns)
+	rawLoads  bool // never name a load by a constant (sum bodies)
 	ghostOverride map[string]string // call-log ghosts bound by the caller (higher-order contracts)
 	byRef     map[string]types.Type // captured variables: the name denotes the content of the cell
 	frameArrs []string // arrays the function under this contract may write (for unchangedOutside)
@@ -324,7 +325,7 @@ func (fc *FnCtx) gvarGet(st *State, name string) string {
 }
 
 func (fc *FnCtx) evalLoad(env *Env, addr Val, t types.Type, hint string) Val {
-	if env.noInv && env.mentionsBound(addr.T) {
+	if env.noInv && (env.rawLoads || env.mentionsBound(addr.T)) {
 		v := fc.loadAt(env.cur, addr, t)
 		// under a binder the value cannot be named by a constant: its type invariant is stated for the whole array version instead
 		if env.binderInvs != nil && v.SV == nil && addr.Local == nil {
@@ -488,7 +489,7 @@ func (fc *FnCtx) selectField(env *Env, x Val, name string) (Val, error) {
 		svst := cur.SV.st
 		cur = fc.fieldOfStruct(cur.SV, t, idx)
 		cur.Typ = ft
-		if cur.SV == nil && svst != nil && (!env.noInv || !env.mentionsBound(cur.T)) && needsInv(ti.sortOf(ft), ft) {
+		if cur.SV == nil && svst != nil && (!env.noInv || !(env.rawLoads || env.mentionsBound(cur.T))) && needsInv(ti.sortOf(ft), ft) {
 			c := fc.q.freshConst("cx_"+sanitize(name), ti.sortOf(ft))
 			fc.q.assert(implies(env.cur.reach, eq(c, cur.T)))
 			fc.typeInvB(env.cur, c, ft, refinedBound(svst, ti.fieldArray(t, idx), cur.T))
@@ -757,6 +758,7 @@ func (fc *FnCtx) evalCall(env *Env, e *Expr) (Val, error) {
 		}
 		n := *env
 		n.noInv = true
+		n.rawLoads = true // the body's text identifies the sum function: no per-use constants
 		n.vars = map[string]Val{}
 		for k, v := range env.vars {
 			n.vars[k] = v
